@@ -6,43 +6,43 @@ From Coq Require Import Permutation Sorted.
 Local Open Scope N_scope.
 
 (* Theorem 1: LF maps the row of suffix s (BWT symbol b >= 1) to the row of b :: s *)
-Theorem FM_lf_spec T P : is_bwt_table T P -> forall r b s, nth_error P r = Some (b, s) -> 1 <= b ->
+Theorem C05_fm_lf_spec T P : is_bwt_table T P -> forall r b s, nth_error P r = Some (b, s) -> 1 <= b ->
   nth_error (map snd P) (Nat.add (occN P b) (rankx P b r)) = Some (b :: s).
 Proof. exact (lf_row T P). Qed.
-Print Assumptions FM_lf_spec.
+Print Assumptions C05_fm_lf_spec.
 
 (* Theorem 2a: rows lo w .. hi w - 1 of the sorted suffix table are exactly the rows that start with w *)
-Theorem FM_row_range T P : is_bwt_table T P -> forall w r s, nth_error (map snd P) r = Some s ->
+Theorem C05_fm_row_range T P : is_bwt_table T P -> forall w r s, nth_error (map snd P) r = Some s ->
   (is_prefix w s = true <-> (lo P w <= r < hi P w)%nat).
 Proof. exact (row_range T P). Qed.
-Print Assumptions FM_row_range.
+Print Assumptions C05_fm_row_range.
 
 (* Theorem 2b: one backward-search step *)
-Theorem FM_backward_step T P : is_bwt_table T P -> forall c w, 1 <= c ->
+Theorem C05_fm_backward_step T P : is_bwt_table T P -> forall c w, 1 <= c ->
   lo P (c :: w) = Nat.add (occN P c) (rankx P c (lo P w)) /\ hi P (c :: w) = Nat.add (occN P c) (rankx P c (hi P w)).
 Proof. intros H c w Hc. split; [apply (lo_step T P H c w Hc)|apply (hi_step T P H c w Hc)]. Qed.
-Print Assumptions FM_backward_step.
+Print Assumptions C05_fm_backward_step.
 
 (* checker soundness *)
-Theorem FM_check_bwt_sound T sa bwt : check_bwt T sa bwt = true ->
+Theorem C05_fm_check_bwt_sound T sa bwt : check_bwt T sa bwt = true ->
   is_bwt_table T (table_of T sa) /\ bwt = map fst (table_of T sa) /\ length sa = S (length T) /\ Forall (fun i => i <= lenN T) sa.
 Proof. exact (check_bwt_sound T sa bwt). Qed.
-Print Assumptions FM_check_bwt_sound.
+Print Assumptions C05_fm_check_bwt_sound.
 
 (* Theorem 3 (C01/C02/C03, locate half) *)
-Theorem FM_locate_spec S sa d q : valid_set S -> fm_check S sa d = true -> valid_query q ->
+Theorem C01_fm_locate_spec S sa d q : valid_set S -> fm_check S sa d = true -> valid_query q ->
   fm_locate d q = Some (spec_locate S q).
 Proof. intros HS Hc. exact (fm_locate_spec S HS sa d Hc q). Qed.
-Print Assumptions FM_locate_spec.
+Print Assumptions C01_fm_locate_spec.
 
 (* Theorem 3b (C01/C02/C03, extract half): for EVERY id *)
-Theorem FM_extract_spec S sa d id : valid_set S -> fm_check S sa d = true ->
+Theorem C01_fm_extract_spec S sa d id : valid_set S -> fm_check S sa d = true ->
   fm_extract d id = Some (spec_extract S id).
 Proof. intros HS Hc. exact (fm_extract_spec S HS sa d Hc id). Qed.
-Print Assumptions FM_extract_spec.
+Print Assumptions C01_fm_extract_spec.
 
 (* C01 round trip for the FM-index model *)
-Theorem FM_round_trip S sa d s : valid_set S -> fm_check S sa d = true -> In s S ->
+Theorem C01_fm_round_trip S sa d s : valid_set S -> fm_check S sa d = true -> In s S ->
   exists i, fm_locate d s = Some i /\ fm_extract d i = Some (Some s).
 Proof.
   intros HS Hc Hin. exists (spec_locate S s). split.
@@ -51,28 +51,28 @@ Proof.
     apply N.le_lt_trans with 254; [exact Ha|reflexivity].
   - rewrite (fm_extract_spec S HS sa d Hc). f_equal. apply spec_extract_locate. exact Hin.
 Qed.
-Print Assumptions FM_round_trip.
+Print Assumptions C01_fm_round_trip.
 
 (* Theorem 4 (C04) *)
-Theorem FM_locatePrefix_spec S sa d p : valid_set S -> fm_check S sa d = true -> p <> [] -> valid_query p ->
+Theorem C04_fm_locatePrefix_spec S sa d p : valid_set S -> fm_check S sa d = true -> p <> [] -> valid_query p ->
   fm_locatePrefix d p = Some (range_of (spec_prefix_ids S p)).
 Proof. intros HS Hc. exact (fm_locatePrefix_spec S HS sa d Hc p). Qed.
-Print Assumptions FM_locatePrefix_spec.
+Print Assumptions C04_fm_locatePrefix_spec.
 
 (* Theorem 5 (C05): for EVERY sampling step >= 1 and every sampled bitmap that passes the checker *)
-Theorem FM_locateSubstr_spec S sa d p cap : valid_set S -> fm_check S sa d = true -> fm_samplesuff d <> 0 ->
+Theorem C05_fm_locateSubstr_spec S sa d p cap : valid_set S -> fm_check S sa d = true -> fm_samplesuff d <> 0 ->
   p <> [] -> valid_query p -> (length S <= cap)%nat ->
   fm_locateSubstr d p cap = Some (Some (spec_substr_ids S p, false)).
 Proof. intros HS Hc Hs. exact (fm_locateSubstr_spec S HS sa d Hc Hs p cap). Qed.
-Print Assumptions FM_locateSubstr_spec.
+Print Assumptions C05_fm_locateSubstr_spec.
 
 (* the occurrence array SSA::locate returns: exactly the IDs of the members containing p (with repeats) *)
-Theorem FM_ssa_locate_spec S sa d p : valid_set S -> fm_check S sa d = true -> fm_samplesuff d <> 0 ->
+Theorem C05_fm_ssa_locate_spec S sa d p : valid_set S -> fm_check S sa d = true -> fm_samplesuff d <> 0 ->
   p <> [] -> valid_query p ->
   exists l, ssa_locate d p = Some l /\ length l = occs (table_of (dict_text S) sa) p /\
     (forall k, In k l <-> exists S1 s S2, S = S1 ++ s :: S2 /\ k = lenN S1 + 1 /\ is_infix p s = true).
 Proof. intros HS Hc Hs. exact (ssa_locate_spec S HS sa d Hc Hs p). Qed.
-Print Assumptions FM_ssa_locate_spec.
+Print Assumptions C05_fm_ssa_locate_spec.
 
 (* ---- the hypotheses are satisfiable: arrays dumped from the real StringDictionaryFMINDEX built over
         {"aaaa","ab","ba"} with BitSequenceRG(4) and BWT sampling 2 ---- *)
